@@ -271,7 +271,7 @@ def oracle_c06(fw, cfg, ops, res):
         if fw == "tx" and cfg["leave_super"] and any(e[0] == "called" and e[1][0] == "leave" for e in evs):
             for j, at in created.items():
                 if at < i and j not in completed_at:
-                    v.append(("pending/future-not-done-after-leave", f"future {j} (created at op {at}) not completed when onLeave ran at op {i}"))
+                    v.append(("pending/future-never-completed", f"future {j} (created at op {at}) not completed when onLeave ran at op {i}"))
         if n == "lost":
             lost = True
         if n == "turn":
@@ -301,7 +301,7 @@ def oracle_c06(fw, cfg, ops, res):
             v.append(("pending/tables-not-empty-after-disconnect", f"tables {res['tables']} after transport loss"))
         for j, done in res["futures"].items():
             if not done:
-                v.append(("pending/future-not-done-after-disconnect", f"future {j} still pending after transport loss"))
+                v.append(("pending/future-never-completed", f"future {j} still pending after transport loss"))
     return v
 
 
